@@ -1,5 +1,6 @@
 import Irismod.Props.Tie_Keys
 open Irismod.GoSem Irismod.Gen.PureKeys Irismod.Props.TieKeys
+#print axioms keys_effects_pinned
 #print axioms keys_all_translated
 #print axioms keys_translated_pinned
 #print axioms keys_guards_pinned
